@@ -60,10 +60,12 @@ RULE = ("(A) class bodies generated as source and exec'd in a fresh module: 0-5 
         "MRO, get/set/del sequences over two instances on cached, dynamic and missing names, the "
         "__attrs_init_subclass__ call log and the closure views from inside the hook.  "
         "(B) seeded random initgen specifications (chains up to depth 3, optional plain class in "
-        "between, optional legacy hash=False) built with slots on and off: signature, every call "
+        "between, optional legacy hash=False, getstate_setstate in {None,True,False} at the leaf) built with slots on "
+        "and off: signature, every call "
         "shape (values, callback traces, exceptions, fault injection), ==/!=/</<=/>/>= matrix, hash "
         "outcome and partition, repr, assignment and deletion per field, evolve, asdict/astuple, "
-        "copy/deepcopy/pickle of fully-set instances, fields(); "
+        "copy/deepcopy/pickle of fully-set instances, histories hash -> [change a hash field] -> copy/deepcopy/pickle "
+        "(fields kept, copy hashes its own fields), fields(); "
         "distinct = distinct recipe / (seed,index); non-trivial = body with a closure user, a cached "
         "property, a base or a field / specification with at least one field")
 EXTRA_TRUSTED = [
